@@ -136,11 +136,12 @@ pub fn run_entry_points(sc: &Value) -> Value {
     use in_toto::models::Metablock;
     let doc = build(&sc["doc"]);
     let mut text = doc.to_string();
+    if sc["text_order"] == true { text = String::new(); ordered_text(&sc["doc"], false, &mut text); }
     let trailing = sc["trailing"] == true;
     if trailing { text.push_str(" {\"x\":1}"); }
     let mut outs: Vec<&str> = Vec::new();
     outs.push(if Json::from_reader::<_, Metablock>(text.as_bytes()).is_ok() { "ok" } else { "err" });
     outs.push(if Json::from_slice::<Metablock>(text.as_bytes()).is_ok() { "ok" } else { "err" });
-    if !trailing { outs.push(if Json::deserialize::<Metablock>(&doc).is_ok() { "ok" } else { "err" }); }
+    if !trailing && sc["text_order"] != true { outs.push(if Json::deserialize::<Metablock>(&doc).is_ok() { "ok" } else { "err" }); }
     json!({"outcome": outs.join("/")})
 }
